@@ -675,3 +675,93 @@ def custom_parallel_columns(u: Unit):
                 off += w
             u.oblige(p, f"custom.parallel_columns{layout}", bool(ok), {"widths": str(layout), "columns taken": str(got)}, PARCOL_REPLAY)
         u.cover(f"custom.parallel_columns.cover{layout}", ps, lambda p: p.kind == "return")
+
+
+# ---- labels of a custom-mode run: id = the row's index, every parameter under ITS OWN short name with ITS OWN value ------------------------
+LABEL_CUSTOM_REPLAY = lambda w: {"code": """
+import tempfile, os, warnings, numpy as np, verif_probes as VP, pyxel
+from pyxel.exposure import Readout
+from pyxel.observation import Observation, ParameterValues
+from pyxel.pipelines import DetectionPipeline, ModelFunction
+warnings.simplefilter('ignore')
+d = tempfile.mkdtemp(); fn = os.path.join(d, 'table.txt')
+rows = [(10.0, 1.5), (20.0, 2.5), (30.0, 3.5)]
+open(fn, 'w').write('\\n'.join(' '.join(str(x) for x in r) for r in rows) + '\\n')
+pipe = DetectionPipeline(photon_collection=[ModelFunction(func='verif_probes.writer', name='w', arguments={'photon': 1.0, 'pixel_add': 1.0})])
+obs = Observation(parameters=[ParameterValues(key='pipeline.photon_collection.w.arguments.photon', values='_'), ParameterValues(key='pipeline.photon_collection.w.arguments.pixel_add', values='_')],
+                  mode='custom', from_file=fn, column_range=(0, 2), readout=Readout(times=[1.0]))
+dt = pyxel.run_mode(mode=obs, detector=VP.detector(), pipeline=pipe)
+node = dt['/bucket'] if '/bucket' in dt.groups else dt
+VIOLATED, DETAIL = False, 'every custom-mode run is labelled with its row index and its own parameter values'
+ids = list(np.asarray(node['id'].values))
+for i, (a, b) in enumerate(rows):
+    sel = node.sel(id=i)
+    got = (float(np.asarray(sel['photon'].values).ravel()[0]), float(np.asarray(sel['pixel'].values).ravel()[0]))
+    lab = (float(sel['photon_1' if 'photon_1' in sel.coords else [c for c in sel.coords if 'photon' in str(c) and c != 'photon'][0]].values) if False else None)
+    if got != (a, b) or ids != [0, 1, 2]:
+        VIOLATED, DETAIL = True, f'run id={i}: buckets {got}, table row {(a, b)}, ids {ids}'; break
+""", "expect": "custom mode: the run stored under id i is the run made with row i of the table"}
+
+
+@unit("C05", "label.custom")
+def label_custom(u: Unit):
+    """_add_custom_parameters for a run with two swept parameters (both one-valued; or the second multi-valued): every dataset of the
+    result gets the dimension id = [index] first, then per parameter a coordinate named dimension_names[key] holding THAT parameter's
+    value (one-valued: along id; multi-valued: an array expanded along id = [index])."""
+    fi = u.fn(f"{OBS}::_add_custom_parameters")
+    for second in ("simple", "multi"):
+        cfg = Cfg("real")
+        boundary.install(cfg)
+        vals = [VInt(z3.Int("pv0")), VInt(z3.Int("pv1"))]
+
+        def setup(ex, second=second):
+            tree = VOpaque("xr", ex.st.fresh_int("tree"), {"label": "data_tree"})
+            v1 = vals[1] if second == "simple" else ex.st.alloc(HList([VInt(z3.Int("pv1a")), VInt(z3.Int("pv1b"))]))
+            ex.v1 = v1
+            pd_ = ex.st.alloc(HDict([(VStr("key.a"), vals[0]), (VStr("key.b"), v1)]))
+            dn = ex.st.alloc(HDict([(VStr("key.b"), VStr("b")), (VStr("key.a"), VStr("a"))]))           # mapping order differs from the run's order: lookups are by key
+            ty = ex.st.alloc(HDict([(VStr("key.a"), VStr("simple")), (VStr("key.b"), VStr(second))]))
+            return [], {"data_tree": tree, "parameter_dict": pd_, "index": VInt(z3.Int("run_index")), "dimension_names": dn, "types": ty}
+        ps = u.paths(fi, setup, cfg, label=f"_add_custom_parameters[second {second}]")
+        for p in ps:
+            if p.kind != "return":
+                u.oblige(p, f"label.custom[{second}].no_raise", False, {"exc": p.exc_name()}, LABEL_CUSTOM_REPLAY)
+                continue
+            ids, coords = [], []
+            for ev in p.st.events:
+                if ev[0] == "xr_call" and str(ev[1]).endswith("dataset.expand_dims"):
+                    d = ev[2][0] if ev[2] else ev[3].get("dim")
+                    if isinstance(d, VRef):
+                        for k, v in p.st.cell(d).items:
+                            items = p.ex.try_list(v) or []
+                            ids.append((k.v, items[0] if items else None))
+                if ev[0] == "xr_call" and str(ev[1]).endswith("dataset.assign_coords"):
+                    d = ev[2][0] if ev[2] else None
+                    if isinstance(d, VRef):
+                        for k, v in p.st.cell(d).items:
+                            coords.append((k.v, v))
+            ok_id = len(ids) == 1 and ids[0][0] == "id" and isinstance(ids[0][1], VInt) and not is_conc(ids[0][1].v) and z3.eq(ids[0][1].v, z3.Int("run_index"))
+
+            def simple_value(v):
+                # (dim 'id', pandas.Index([value]))
+                if isinstance(v, VTuple) and len(v.items) == 2 and isinstance(v.items[0], VStr) and v.items[0].v == "id" and isinstance(v.items[1], VOpaque):
+                    a = (v.items[1].info.get("args") or [None])[0]
+                    it = p.ex.try_list(a) if a is not None else None
+                    return it[0] if it and len(it) == 1 else None
+                return None
+            ok = len(coords) == 2 and coords[0][0] == "a" and same(simple_value(coords[0][1]), vals[0]) and coords[1][0] == "b"
+            if ok and second == "simple":
+                ok = same(simple_value(coords[1][1]), vals[1])
+            elif ok:
+                from .calibreport import term
+                t = term(p.ex, coords[1][1])
+                das = [e for e in p.st.events if e[0] == "lib_call" and e[1] == "xarray.DataArray" and e[2] and p.ex.is_arr(e[2][0])]
+                arr_ok = False
+                if len(das) == 1:
+                    c = p.st.cell(das[0][2][0])
+                    arr_ok = len(c.shape) == 1 and str(z3.simplify(z_int(c.shape[0]))) == "2" and z3.eq(z3.simplify(z_int(int_of(c.elem((z3.IntVal(0),))))), z3.Int("pv1a")) \
+                        and z3.eq(z3.simplify(z_int(int_of(c.elem((z3.IntVal(1),))))), z3.Int("pv1b"))
+                ok = arr_ok and t.startswith("xarray.DataArray(") and ".expand_dims({'id': [run_index]})" in t
+            u.oblige(p, f"label.custom[{second}].id_is_the_run_index", bool(ok_id), {"ids": str(ids)}, LABEL_CUSTOM_REPLAY)
+            u.oblige(p, f"label.custom[{second}].each_parameter_under_its_own_name", bool(ok), {"coords": str([c[0] for c in coords])}, LABEL_CUSTOM_REPLAY)
+        u.cover(f"label.custom.cover[{second}]", ps, lambda p: p.kind == "return")
